@@ -153,7 +153,9 @@ def build(c, is_async):
     g.__annotations__ = dict(f.__annotations__)
     val = get_validator(v['kind'], v.get('coerce', True), v.get('excluded') or [])
     if v['kind'] == 'jsonschema':
-        val.validate(g, schema=v['schema'])
+        # validator arguments given for *this* method only (besides its schema)
+        extra = {'format_checker': jsonschema.FormatChecker()} if v.get('format_checker') else {}
+        val.validate(g, schema=v['schema'], **extra)
     else:
         val.validate(g)
     d = (pjrpc.server.AsyncDispatcher if is_async else pjrpc.server.Dispatcher)()
@@ -224,7 +226,8 @@ def reference(c):
     args = dict(ba.arguments)
     if v['kind'] == 'jsonschema':
         try:
-            jsonschema.validate(args, v['schema'], types={'array': (list, tuple)})
+            extra = {'format_checker': jsonschema.FormatChecker()} if v.get('format_checker') else {}
+            jsonschema.validate(args, v['schema'], types={'array': (list, tuple)}, **extra)
         except jsonschema.ValidationError:
             return 'reject', None
         final = dict(args)
@@ -321,6 +324,17 @@ def generate(tier, rng):
         paramsc = [{'n': 'ctx', 'k': 'pk', 'd': False}, {'n': 'a', 'k': 'pk', 'd': False}]
         for rp in ([1], ['x'], {'a': 1}, {'a': 1, 'ctx': 2}):
             yield make_case(paramsc, {'kind': 'jsonschema', 'schema': schema, 'excluded': []}, 'ctx', rp)
+    # validator arguments of one method must not reach another method validated by the same validator object:
+    # `format` is an assertion only for the method that asks for a format checker
+    fschema = {'type': 'object', 'properties': {'a': {'type': 'string', 'format': 'ipv4'}}, 'required': ['a']}
+    params = [{'n': 'a', 'k': 'pk', 'd': False}]
+    strict = {'kind': 'jsonschema', 'schema': fschema, 'format_checker': True}
+    lenient = {'kind': 'jsonschema', 'schema': fschema}
+    for order in ((strict, lenient), (lenient, strict), (strict, lenient, strict, lenient)):
+        for v in order:
+            for val in ('127.0.0.1', 'localhost', 1, ''):
+                yield make_case(params, v, None, [val], tag='validators-kwargs')
+                yield make_case(params, v, None, {'a': val}, tag='validators-kwargs')
     # --- base validator with an exclusion predicate -------------------------------------------------
     params = [{'n': 'a', 'k': 'pk', 'd': False}, {'n': 'dep', 'k': 'pk', 'd': True}]
     for rp in ([1], [1, 2], {'a': 1}, {'a': 1, 'dep': 2}, {}, {'dep': 1}):
